@@ -390,6 +390,29 @@ func decodeState(p resources.Persistable) ([]int, bool) {
 	}
 }
 
+// drainChan waits for the want messages already committed (never concludes from a delay that a
+// message is lost) and then takes whatever else is there without waiting.
+func drainChan(ch chan tla.Value, want int) ([]int, bool) {
+	got := []int{}
+	deadline := time.After(30 * time.Second)
+	for len(got) < want {
+		select {
+		case v := <-ch:
+			got = append(got, fromVal(v)...)
+		case <-deadline:
+			return got, false
+		}
+	}
+	for {
+		select {
+		case v := <-ch:
+			got = append(got, fromVal(v)...)
+		default:
+			return got, true
+		}
+	}
+}
+
 func openDB() *badger.DB {
 	opts := badger.DefaultOptions("").WithInMemory(true).WithLogger(nil).
 		WithMemTableSize(1 << 20).WithNumMemtables(2).WithBlockCacheSize(1 << 20).WithIndexCacheSize(0).
@@ -724,17 +747,7 @@ func (cr *caseRun) build() {
 		case "outchan":
 			ch := make(chan tla.Value, 4096)
 			bind(p, resources.NewOutputChan(ch))
-			in.drain = func(int, bool) ([]int, bool) {
-				got := []int{}
-				for {
-					select {
-					case v := <-ch:
-						got = append(got, fromVal(v)...)
-					default:
-						return got, true
-					}
-				}
-			}
+			in.drain = func(want int, _ bool) ([]int, bool) { return drainChan(ch, want) }
 		case "singleout", "singleout0":
 			// SingleOutputChan sends at once (like a relaxed mailbox). "singleout0": nobody ever
 			// receives, so every write is refused by the resource itself after its timeout.
@@ -744,17 +757,7 @@ func (cr *caseRun) build() {
 			}
 			ch := make(chan tla.Value, n)
 			bind(p, resources.NewSingleOutputChan(ch))
-			in.drain = func(int, bool) ([]int, bool) {
-				got := []int{}
-				for {
-					select {
-					case v := <-ch:
-						got = append(got, fromVal(v)...)
-					default:
-						return got, true
-					}
-				}
-			}
+			in.drain = func(want int, _ bool) ([]int, bool) { return drainChan(ch, want) }
 		case "tcpin", "tcpout", "rlxin", "rlxout":
 			if np == nil {
 				np = mkNet(strings.HasPrefix(rs.Impl, "rlx"))
